@@ -138,6 +138,13 @@ func runC11(c *an.Ctx) {
 					noVerifier = true
 				}
 			}
+			// "no verifier yet" is a way out BEFORE the verifier is called; a return that can be reached
+			// after the call is a verdict on its result and has to be the soft one, classified through
+			// errors.As (a helper that looks at the outermost error only lets a wrapped soft failure
+			// through to Reject)
+			if (an.Flow{Fn: vm}).CanReach(vcall, r) {
+				noVerifier = false
+			}
 			c.Check(soft || noVerifier, "C11.b", "ignore-only-soft", "Ignore is returned only for a *VerifyError with SoftFailure, or when the context ended before a verifier was set", vm, r, "", fs)
 		case reject:
 			nRej++
